@@ -54,6 +54,7 @@ type Outcome struct {
 	Height   int64      `json:"height"`
 	Prior    string     `json:"prior"`
 	Dropped  int        `json:"dropped"`
+	BlockID  string     `json:"blockid"` // sha256 of the encoded block as built
 	// digests (hex sha256) of the byte encodings: receipts, state write set, root, local add set, local del set
 	DRcpt string `json:"drcpt,omitempty"`
 	DKV   string `json:"dkv,omitempty"`
@@ -233,7 +234,7 @@ func (r *Rig) localSets(detail *types.BlockDetail, del bool) (*types.LocalDBSet,
 // EventAddBlock. The pending store update is rolled back afterwards.
 func (r *Rig) Exec(blk *types.Block, feeWant int64) (*Outcome, *types.BlockDetail) {
 	prior := r.tip.StateHash
-	out := &Outcome{Height: blk.Height, Prior: hex.EncodeToString(prior), FeeWant: feeWant}
+	out := &Outcome{Height: blk.Height, Prior: hex.EncodeToString(prior), FeeWant: feeWant, BlockID: dig(types.Encode(blk))}
 	b1 := types.Clone(blk).(*types.Block)
 	rc, err := util.ExecTx(r.cli, prior, b1)
 	if err != nil {
@@ -278,7 +279,9 @@ func (r *Rig) Exec(blk *types.Block, feeWant int64) (*Outcome, *types.BlockDetai
 	out.FeeDelta = r.balance(prior) - r.balance(detail.Block.StateHash)
 	set, err := r.localSets(detail, false)
 	if err != nil {
+		// the executor refuses to produce the block's local data: the block cannot be added
 		out.LocalErr = err.Error()
+		out.Rejected, out.Err = true, "addblock: "+err.Error()
 	} else {
 		out.LocalAdd = kvStrings(set.KV)
 		out.DLAdd = dig(types.Encode(set))
@@ -295,7 +298,7 @@ func (r *Rig) Exec(blk *types.Block, feeWant int64) (*Outcome, *types.BlockDetai
 // BlockChain.ProcAddBlockMsg, which executes it again and persists state and local data.
 func (r *Rig) Connect(blk *types.Block, feeWant int64) *Outcome {
 	out, _ := r.Exec(blk, feeWant)
-	if out.Rejected {
+	if out.Rejected && out.LocalErr == "" {
 		return out
 	}
 	b3 := types.Clone(blk).(*types.Block)
@@ -307,6 +310,12 @@ func (r *Rig) Connect(blk *types.Block, feeWant int64) *Outcome {
 	if detail == nil || detail.Block == nil {
 		out.Rejected, out.Err = true, "connect: no block detail"
 		return out
+	}
+	if out.LocalErr != "" {
+		// the chain connected a block whose local data the executor refused to produce
+		out.Rejected = false
+		out.LocalErr = "connected although: " + out.LocalErr
+		out.Err = ""
 	}
 	if got := hex.EncodeToString(detail.Block.StateHash); got != out.Root {
 		out.Err = "connect: state root differs from PreExecBlock: " + got
